@@ -460,3 +460,83 @@ pub proof fn lemma_mentions_layout(m: Mapper, l: Layout, x: KeyCode)
   let j = choose|j: int| 0 <= j < m.active_view().len() && ((#[trigger] m.active_view()[j]).to.contains(x) || m.active_view()[j].from.contains(x));
   m.lemma_active_in_layout(l, j);
 }
+
+// ============================== C04: output modifiers are exact when a mapped key goes down ==============================
+// x is an output key of a modifier-remapping (a mapping whose output does not end in a non-modifier key) of the layout all of whose trigger keys are physically held
+pub open spec fn held_mod_remap(l: Layout, phys: Set<KeyCode>, x: KeyCode) -> bool {
+  exists|i: int| 0 <= i < l.mappings@.len() && !act_map_v((#[trigger] l.mappings@[i]).to@) && l.mappings@[i].to@.contains(x) && (forall|f: KeyCode| l.mappings@[i].from@.contains(f) ==> phys.contains(f))
+}
+// C04, statement level: mapping mv fires in a step that emits evs, held0 being down on the virtual keyboard and phys on the physical keyboard when the step starts
+pub open spec fn c04_statement(l: Layout, phys: Set<KeyCode>, held0: Set<KeyCode>, mv: MappingV, evs: Seq<Event>) -> bool {
+  forall|p: int| #![trigger evs[p]] 0 <= p < evs.len() && evs[p] == Event::Pressed(mv.to.last()) ==> (match apply(held0, evs.take(p)) {
+    // at the instant the final output key is pressed (h is down) every modifier listed in the output is already down ...
+    Some(h) => (forall|q: KeyCode| #[trigger] mv.to.contains(q) && is_mod(q) ==> h.contains(q))
+      // ... and any other modifier that is down is physically held and not part of the trigger, or is the output of a held modifier-remapping
+      && (forall|x: KeyCode| #![trigger h.contains(x)] h.contains(x) && is_mod(x) && !mv.to.contains(x) ==> (phys.contains(x) && !mv.from.contains(x)) || held_mod_remap(l, phys, x)),
+    None => false })
+}
+
+//@ C04 | universal client (no stale modifiers): history-level theorem
+pub fn universal_client_c04(layout: &Layout, ops: &Vec<Op>)
+  requires layout_ok(*layout), no_absorbing(*layout)
+{
+  let mut m = Mapper::for_layout(layout);
+  let ghost mut phys: Set<KeyCode> = Set::empty();
+  let mut i: usize = 0;
+  while i < ops.len()
+    invariant
+      i <= ops.len(),
+      m.inv(),
+      m.grouped_from(*layout),
+      layout_ok(*layout), no_absorbing(*layout),
+      //@ C04 | history fact: what the mapper considers pressed is physically pressed
+      forall|x: KeyCode| #[trigger] m.pressed_view().contains(x) ==> phys.contains(x),
+    decreases ops.len() - i
+  {
+    let ghost m0 = m; let ghost held0 = m.held_view(); let ghost phys0 = phys;
+    match &ops[i] {
+      Op::Ev(e) => {
+        let e1 = match e { Event::Pressed(k) => Event::Pressed(*k), Event::Released(k) => Event::Released(*k) };
+        let ghost e1g = e1;
+        let r = m.step(e1);
+        proof {
+          phys = phys_after(phys0, ops@[i as int]);
+          match e1g {
+            Event::Pressed(k) => { if !m0.pressed_view().contains(k) {
+              m0.lemma_gfired(*layout, k); m0.lemma_no_absorbing(*layout, k);
+              let fired = layout_fired(layout.mappings@, m0.pressed_view(), Set::<KeyCode>::empty(), k);
+              assert(fired == m0.gfired(k));
+              match fired { Some(mv) => { if act_map_v(mv.to) {
+                  assert(Mapper::c04_instant(m0, mv, r.events@));
+                  //@ C04 | THEOREM C04 at this step (layout without absorbing, any reachable state): when the mapping that fires is key-producing, at the instant its final output key is pressed on the virtual keyboard every modifier listed in its output is already down, and any other modifier down at that instant is physically held and not part of the mapping's trigger, or is the output of a held modifier-remapping
+                  assert(c04_statement(*layout, phys0, held0, mv, r.events@)) by {
+                    assert forall|p: int| #![trigger r.events@[p]] 0 <= p < r.events@.len() && r.events@[p] == Event::Pressed(mv.to.last()) implies (match apply(held0, r.events@.take(p)) {
+                        Some(h) => (forall|q: KeyCode| #[trigger] mv.to.contains(q) && is_mod(q) ==> h.contains(q))
+                          && (forall|x: KeyCode| #![trigger h.contains(x)] h.contains(x) && is_mod(x) && !mv.to.contains(x) ==> (phys0.contains(x) && !mv.from.contains(x)) || held_mod_remap(*layout, phys0, x)),
+                        None => false }) by {
+                      let h = apply(held0, r.events@.take(p)).unwrap();
+                      assert forall|x: KeyCode| #![trigger h.contains(x)] h.contains(x) && is_mod(x) && !mv.to.contains(x) implies (phys0.contains(x) && !mv.from.contains(x)) || held_mod_remap(*layout, phys0, x) by {
+                        if !(m0.pressed_view().contains(x) && !mv.from.contains(x)) {
+                          assert(mod_owner_v(m0.active_view(), x));
+                          let j = choose|j: int| 0 <= j < m0.active_view().len() && !act_map_v((#[trigger] m0.active_view()[j]).to) && m0.active_view()[j].to.contains(x);
+                          m0.lemma_active_in_layout(*layout, j);
+                          let i2 = choose|i2: int| 0 <= i2 < layout.mappings@.len() && mview(#[trigger] layout.mappings@[i2]) == m0.active_view()[j];
+                          assert forall|f: KeyCode| layout.mappings@[i2].from@.contains(f) implies phys0.contains(f) by { m0.lemma_active_facts(j, f); }
+                        }
+                      }
+                    }
+                  }
+                } }, None => {} }
+            } },
+            Event::Released(k) => {},
+          }
+        }
+      },
+      Op::ReleaseAll => {
+        let evs = m.release_all();
+        proof { assert forall|x: KeyCode| #[trigger] m.pressed_view().contains(x) implies phys.contains(x) by { assert(m.pressed_view().len() == 0); } }
+      },
+    }
+    i += 1;
+  }
+}
